@@ -14,9 +14,9 @@ ID = 'C06'
 
 def plan(tier):
     if tier == 'quick':
-        return [(3, ('rs1s', 'rs2s', 'rs1c', 'rs2c'), 'RB', 0, False), (2, ('plain',), 'RZq', 2, False), (3, ('tri',), 'R', 0, False), (1, ('plain',), 'RBWN', 2, False), (2, ('plain', 'rainbow'), 'RBWN', 2, False),
+        return [(3, ('rs1s', 'rs2s', 'rs1c', 'rs2c'), 'RB', 0, False), (3, ('plain',), 'MB', 2, False), (2, ('plain',), 'RZq', 2, False), (3, ('tri',), 'R', 0, False), (1, ('plain',), 'RBWN', 2, False), (2, ('plain', 'rainbow'), 'RBWN', 2, False),
                 (3, ('plain',), 'RBW', 2, False), (3, ('rainbow',), 'RWN', 1, True), (3, ('parsed',), 'RW', 1, False), (3, ('plain',), 'eB', 2, False), (3, ('plain',), 'gmB', 2, False), (3, ('long',), 'RB', 2, False), (2, ('plain',), 'WN', 3, False), (2, ('plain',), 'RB', 3, False), (3, ('dup1', 'dup2'), 'RW', 1, False), (4, ('rs1', 'rs2'), 'RBW', 1, False), (2, ('wide', 'wide2'), 'RW', 1, False)]
-    return [(4, ('rs1s', 'rs2s', 'rs1c', 'rs2c'), 'RBW', 1, False), (3, ('plain',), 'RZqW', 2, False), (2, ('plain',), 'OEAV', 2, False), (3, ('tri', 'trix', 'triw'), 'R', 0, False), (4, ('tri',), 'R', 0, False), (1, ('plain',), 'RBWNX', 3, False), (2, ('plain', 'rainbow'), 'RBWN', 3, False),
+    return [(4, ('rs1s', 'rs2s', 'rs1c', 'rs2c'), 'RBW', 1, False), (3, ('plain',), 'MBk', 2, False), (3, ('plain',), 'RZqW', 2, False), (2, ('plain',), 'OEAV', 2, False), (3, ('tri', 'trix', 'triw'), 'R', 0, False), (4, ('tri',), 'R', 0, False), (1, ('plain',), 'RBWNX', 3, False), (2, ('plain', 'rainbow'), 'RBWN', 3, False),
             (3, ('plain', 'rainbow'), 'RBWN', 2, True), (3, ('plain',), 'RBW', 3, False), (4, ('plain', 'rainbow'), 'RBW', 2, False), (3, ('plain',), 'egmB', 2, False), (3, ('plain',), 'eB', 3, False), (3, ('long',), 'RBW', 2, False), (3, ('dup1', 'dup2'), 'RW', 1, False), (4, ('rs1', 'rs2'), 'RBW', 2, False), (2, ('wide', 'wide2'), 'RW', 2, False), (3, ('wide',), 'RW', 1, False)]
 
 
@@ -30,6 +30,7 @@ def settings_menu(seed, tier):
          [R['R'], R['B']],        # two new settings that conflict with each other: the last one given shows
          ['int:1', R['e'], 'int:34'],   # integer codes before and after a setting in another form: the order given counts
          ['raw:;'],               # a non-empty argument that holds no setting: nothing to apply
+         [R['M']],                # a directive string with arguments, as str (also one the value already holds)
          [R['Z']], [R['q']]]      # a reset, a verbatim setting of two groups: settings that touch more than their first code says
     if tier != 'quick':
         m += [[R['T']], [R['U']], [R['D']], [R['W'], R['N']], [R['o']], [R['B'], R['W'], R['R']]]
